@@ -3,7 +3,7 @@
 # (patched copies of the affected files are supplied through a build overlay).
 # prints MUTANT-CAUGHT / MUTANT-MISSED / MUTANT-INCONCLUSIVE
 id=$1; patch=$(readlink -f "$2"); tier=${3:-quick}
-cd "$(dirname "$0")/.."
+cd "$(dirname "$0")/.."; mkdir -p build
 tmp=$(mktemp -d /tmp/pdmut.XXXXXX)
 trap 'rm -rf $tmp' EXIT
 python3 - "$patch" "$tmp" <<'PY' || { echo "MUTANT-INCONCLUSIVE $id $(basename $patch) (cannot prepare overlay)"; exit 3; }
